@@ -731,6 +731,14 @@ impl Model {
     /// back-pressure armed: everything after the write is deferred until `unblock`), or goes through
     fn write_gate(&mut self, m: &Msg, resumed: bool) -> bool {
         if self.write_fails() {
+            // the request whose packet could not be written is lost with it: its caller is told that
+            // the context is gone for it, even if the Context value lives on for another connection
+            let op = match m {
+                Msg::First(op) | Msg::Pubrel(op) => *op,
+            };
+            if !matches!(self.ops[op].st, St::Done | St::Completing(_)) {
+                self.complete(op, ResPat::Exact("Err:ContextExited".into()));
+            }
             return true;
         }
         if !resumed && self.block_armed {
